@@ -114,7 +114,7 @@ def build_labels(job):
             img = r.uniform(0, 1, size=(h, w, job["ch"])).astype("float32")
         insts = [np.array([[np.nan, np.nan] if p is None else p for p in inst], dtype="float64") for inst in f["instances"]]
         frames.append(dict(image=img, instances=insts, video=f["video"]))
-    labels = make_labels(frames, n_nodes=job["n_nodes"])
+    labels = make_labels(frames, n_nodes=job["n_nodes"], stale_hidden=(job["jid"] % 2 == 1))   # hidden nodes with stale coordinates
     from harness.shim import predicted_instance
 
     for lf, f in zip(labels.labeled_frames, job["frames"]):
